@@ -317,7 +317,13 @@ class FunctionExtractor:
         if self.is_ctor or self.is_dtor:
             # return self
             idx = btxt.rstrip().rfind('}')
-            btxt = btxt[:idx] + ' return self; }' + btxt[idx + 1:]
+            tail = ''
+            if self.is_dtor:
+                # R5d: after the destructor body C++ destroys, in reverse order of declaration, every member sub-object whose class declares a destructor
+                for (fname_, ftype_) in reversed(member_objects_with_destructor(self.cpp, self.cls)):
+                    tail += ' %s__dtor((%s*)&self->%s);' % (ftype_, ftype_, fname_)
+                    self.rules.append('R5d')
+            btxt = btxt[:idx] + tail + ' return self; }' + btxt[idx + 1:]
         line = _line_of(src, bb)
         sline = _line_of(src, fb)
         out = []
@@ -883,6 +889,46 @@ def extract_cxx_constants():
     if len(out) < 2:
         raise ExtractionError('numeric_functions.h constants not found')
     return '\n'.join(out) + '\n'
+
+
+_record_cache = {}
+
+
+def _record_decl(cpp, cls):
+    key = (cpp, cls)
+    if key not in _record_cache:
+        found = [None]
+
+        def visit(o):
+            if o.get('kind') == 'CXXRecordDecl' and o.get('name') == cls and o.get('completeDefinition') and found[0] is None:
+                found[0] = o
+            for c in o.get('inner', []) or []:
+                if c.get('kind') in ('LinkageSpecDecl', 'NamespaceDecl', 'CXXRecordDecl', 'TranslationUnitDecl'):
+                    visit(c)
+        for o in clang_ast(cpp, cls):
+            visit(o)
+        _record_cache[key] = found[0]
+    return _record_cache[key]
+
+
+def member_objects_with_destructor(cpp, cls):
+    """[(field name, class name)] of the by-value members of `cls` whose own class declares a destructor, in declaration order"""
+    d = _record_decl(cpp, cls)
+    if d is None:
+        raise ExtractionError('definition of class %s not found' % cls)
+    out = []
+    for c in d.get('inner', []) or []:
+        if c.get('kind') != 'FieldDecl':
+            continue
+        qt = _strip_const(c.get('type', {}).get('qualType', '')).strip()
+        if not re.match(r'^[A-Z]\w*$', qt):
+            continue            # pointers, scalars, typedef'd integers
+        md = _record_decl(cpp, qt)
+        if md is None:
+            continue
+        if any(x.get('kind') == 'CXXDestructorDecl' and not x.get('isImplicit') for x in md.get('inner', []) or []):
+            out.append((c['name'], qt))
+    return out
 
 
 def default_arg_text(cpp_rel, callee, index):
